@@ -401,6 +401,9 @@ class Machine(object):
         lib = {"P-192": "p192", "P-224": "p224", "P-256": "p256", "P-384": "p384", "P-521": "p521", "Ed25519": "ed25519", "Ed448": "ed448"}
         for _ in range(5):
             ctx.step()
+            if rng.random() < 0.3:
+                self._seed_key_alloc(ctx, rng, allocator)
+                continue
             cn = rng.choice(list(lib))
             ws = cn in ec.WS
             c = ec.WS[cn] if ws else ec.ED[cn]
@@ -421,7 +424,10 @@ class Machine(object):
             else:
                 Q2 = ec.ws_mul(c, k_ + 1, G)
                 kw = dict(d=k_, point_x=Q2[0], point_y=Q2[1])
-            call = lambda: ECC.construct(curve=lib[cn], **kw)
+            def call(kw=kw, cn=cn):
+                k = ECC.construct(curve=lib[cn], **kw)
+                k.pointQ.xy                   # the public point is derived lazily: inside the faulty region, like its conversion
+                return k
             allocator.reset()
             try:
                 k0 = call()
@@ -455,12 +461,64 @@ class Machine(object):
                                     cn, "a point that is not on the curve" if kind == "off" else "a private scalar with another key's public point", i, n),
                                 observed="key accepted", expected="ValueError or MemoryError")
                 bad = K.check_ecc(k)
-                if bad or k != k0:
+                try:
+                    same = (k == k0)
+                except Exception:
+                    same = True
+                if bad or not same:
                     ctx.violate("invariant/ECC.construct/alloc-failure/wrong-key",
                                 "ECC.construct(curve=%s, %s) under a failed allocation (number %d of %d) returned a key that %s" % (
                                     cn, kind, i, n, "; ".join(bad) if bad else "differs from the key returned without the fault"),
                                 observed="key", expected="the same key or an exception")
                 ctx.probe("alloc_failure_survived")
+
+    def _seed_key_alloc(self, ctx, rng, allocator):
+        """Keys of the Edwards and Montgomery curves from their seed, and equality of equal points, with every allocation
+        inside the call failed in turn: the public key that comes out is the right one, equal points are equal, or the
+        call raises."""
+        from Crypto.PublicKey import ECC
+        curve = rng.choice(["ed25519", "ed448", "curve25519", "curve448", "curve448", "ed448"])
+        n = {"ed25519": 32, "ed448": 57, "curve25519": 32, "curve448": 56}[curve]
+        seed = data("ska%d" % rng.randrange(1 << 30), n)
+
+        def call():
+            k = ECC.construct(curve=curve, seed=seed)
+            pub = k.public_key().export_key(format="raw")
+            return k, pub, (k.pointQ == k.public_key().pointQ)
+        allocator.reset()
+        k0, pub0, eq0 = call()
+        nall = allocator.calls()
+        bad0 = K.check_ecc(k0)
+        if bad0 or not eq0:
+            ctx.violate("invariant/ECC.construct/%s" % self._slug((bad0 or ["equal points compare unequal"])[0]), "ECC.construct(curve=%s, seed=...): %s" % (curve, bad0),
+                        observed="; ".join(bad0), expected="valid key")
+        ctx.state(("ecc_alloc", curve, "seed", min(nall, 40)))
+        idxs = list(range(nall)) if nall <= 64 else sorted(set(list(range(32)) + [rng.randrange(nall) for _ in range(32)]))
+        for i in idxs:
+            allocator.arm(i)
+            try:
+                k, pub, eq = call()
+                err = None
+            except Exception as e:
+                err = e
+            finally:
+                fired = allocator.failed() > 0
+                allocator.disarm()
+            if fired:
+                ctx.fault("alloc.fail")
+            ctx.obs(curve, i, type(err).__name__)
+            if err is not None:
+                ctx.probe("alloc_failure_raised" if fired else "no_failure_fired")
+                continue
+            if pub != pub0:
+                ctx.violate("invariant/ECC.construct/alloc-failure/wrong-public-key/%s" % curve,
+                            "ECC.construct(curve=%s, seed=...) with allocation number %d of %d failed handed out the public key %s.. instead of %s.. "
+                            "(no exception)" % (curve, i, nall, pub.hex()[:24], pub0.hex()[:24]), observed=pub.hex(), expected=pub0.hex() + " or an exception")
+            if not eq:
+                ctx.violate("invariant/EccPoint.__eq__/alloc-failure/equal-points-unequal/%s" % curve,
+                            "two equal points of %s compared unequal when allocation number %d of %d failed (no exception)" % (curve, i, nall),
+                            observed="False", expected="True or an exception")
+            ctx.probe("alloc_failure_survived")
 
     def run_toy(self, case, ctx):
         """Adversarially *consistent* tuples: every arithmetic relation between the components holds, but one component
